@@ -126,6 +126,26 @@ def rule_b(ctx):
             r.ok(key, action=want)
         else:
             r.violate(key, "merge_media_queries handles %s with (push=%s, return None=%s); expected: %s" % (var, pushes, ret_none, want), b.loc())
+    # the list handed back is the one built from the Success payloads — never one of the input lists taken as it is
+    for bb_, i_, pl_, rv_, st_ in b.assignments():
+        if pl_.local == 0 and not pl_.proj and rv_["k"] == "agg" and rv_.get("variant") == "Some":
+            src = an.trace_operand(b, Operand(rv_["ops"][0]), through_calls=False)
+            from_inputs = False
+            cur, g = src, 0
+            while cur.root[0] == "call" and g < 6:
+                cc = b.call_at(cur.root[2])
+                if cc is None or not cc.args:
+                    break
+                cur = an.trace_operand(b, cc.args[0], through_calls=False)
+                g += 1
+            if cur.root[0] == "arg":
+                from_inputs = True
+            key = "merge_media_queries|result-is-built-from-merges"
+            if from_inputs:
+                r.violate(key, "merge_media_queries returns one of its input query lists unchanged (%r) instead of the list of pairwise merge results: the emitted query list is "
+                          "then wider than the intersection (`@media screen, print {@media screen {..}}` stays `screen, print`)" % (src,), "%s:%d" % (b.file, st_["span"]["l"]))
+            else:
+                r.ok(key)
     # the merge is query1.merge(query2) over the full cartesian product: both loops iterate the two parameters
     mc = [c for c in b.calls() if (c.name() or "").endswith("MediaQuery::merge")]
     if len(mc) == 1:
